@@ -168,8 +168,17 @@ fn world_level(c: &mut Commands, call: Call) -> bool
         Call::Despawn(e) => { let e = pool_entity(e); c.queue(move |w: &mut World| { if let Ok(em) = w.get_entity_mut(e) { em.despawn(); } }); }
         Call::RegRevoke(kind, x) => c.queue(move |w: &mut World| {
             w.react(|rc| {
-                let token = match (kind % 4, x % 2)
+                let token = match (kind % 8, x % 2)
                 {
+                    // other registries keyed by the same types: revoking there must leave the probes of the accessors alone
+                    (4, 0) => rc.on_revokable(broadcast::<RA>(), || {}),
+                    (4, _) => rc.on_revokable(broadcast::<RB>(), || {}),
+                    (5, 0) => rc.on_revokable(any_entity_event::<RA>(), || {}),
+                    (5, _) => rc.on_revokable(any_entity_event::<RB>(), || {}),
+                    (6, 0) => rc.on_revokable(broadcast::<CA>(), || {}),
+                    (6, _) => rc.on_revokable(broadcast::<CB>(), || {}),
+                    (7, 0) => rc.on_revokable(any_entity_event::<CA>(), || {}),
+                    (7, _) => rc.on_revokable(any_entity_event::<CB>(), || {}),
                     (0, 0) => rc.on_revokable(insertion::<CA>(), || {}),
                     (0, _) => rc.on_revokable(insertion::<CB>(), || {}),
                     (1, 0) => rc.on_revokable(mutation::<CA>(), || {}),
@@ -758,7 +767,7 @@ pub fn decode(bytes: &[u8], max_steps: usize, max_calls: usize) -> AccCase
                 match below(byte(&mut u), 9)
                 {
                     7 => Call::WorldResReads(r),
-                    8 => Call::RegRevoke((k / 5) % 4, r),
+                    8 => Call::RegRevoke((k / 5) % 8, r),
                     0 | 1 => Call::Insert(e, c, v),
                     2 => Call::TriggerMutation(e, c),
                     3 => Call::TriggerRes(r),
